@@ -824,7 +824,7 @@ class MetadataProviderServer(Server):
                 # to be caught and forwarded to the ExceptionHandler.
                 reply = async_func()
                 self._send_reply(request_id, reply)
-            except RemotingException as err:
+            except Exception as err:
                 self.on_exception(err)
 
         # Submits the task to the executor for asynchronous execution.
